@@ -188,7 +188,7 @@ impl Prop for C14 {
         "C14"
     }
     fn rule(&self) -> &'static str {
-        "cases = DNS queries over UDP/IPv4 to arbitrary destination addresses and ports: arbitrary id, flag word with QR=0 and every other bit arbitrary (opcode, AA, TC, RD, RA, Z, RCODE), k in 0..8 IN/A questions, names as label sequences (labels 1..63 bytes, total <= 255; LDH, arbitrary non-zero bytes, and a separately tracked class holding 0x00 / 0xC0 bytes), no other sections, no trailing bytes; messages that complete another protocol's signature per the reference automaton are excluded and counted. Negative: one question changed to a type/class other than IN/A; truncation at every byte. Oracle: independent DNS decoder with compression-pointer support: id/opcode/RD echoed, QR=1, question section byte-identical, one answer per question owned by the queried name with type A, class IN, RDLENGTH 4, RDATA = destination IPv4 address, header counts match the records present and the message is consumed exactly; negatives get no reply. Non-trivial = k >= 1 (or a truncation); distinct by message hash."
+        "cases = DNS queries over UDP/IPv4 to arbitrary destination addresses and ports: arbitrary id, flag word with QR=0 and every other bit arbitrary (opcode, AA, TC, RD, RA, Z, RCODE), k in 0..8 IN/A questions, names as label sequences (labels 1..63 bytes, total <= 255; LDH, arbitrary non-zero bytes, and a separately tracked class holding 0x00 / 0xC0 bytes), no other sections, no trailing bytes; messages that complete another protocol's signature per the reference automaton are excluded and counted. Negative: one question changed to a type/class other than IN/A; truncation at every byte. Oracle: independent DNS decoder with compression-pointer support: id/opcode/RD echoed, QR=1, question section byte-identical, one answer per question owned by the queried name with type A, class IN, RDLENGTH 4, RDATA = destination IPv4 address, header counts match the records present and the message is consumed exactly; negatives get no reply. Non-trivial = k >= 1 (or a truncation); distinct by message hash. Shadow traffic (vf/shadow.rs): three cases in ten process, before every frame of the case, a sibling of that frame whose result is discarded — the same frame again, or one tuple element (source / destination port, source / destination address, source MAC), one payload bit or the payload length changed; TCP conversations are shadowed whole on a sibling flow validated with its own cookie; sound by the statement of C08, cases whose own flows meet a shadow tuple are excluded and counted."
     }
     fn run(&self, ctx: &mut RunCtx) {
         let n = ctx.share(ctx.tier.n(2_500_000, 20_000_000));
